@@ -532,3 +532,43 @@ Proof.
   destruct I0 as [i0r i0i], I2 as [i2r i2i], K as [kr ki].
   redq. repeat (rewrite ?Q2R_plus, ?Q2R_minus, ?Q2R_mult, ?Q2R_opp, ?half_Q_R, ?Q2R_0, ?Q2R_1). reflexivity.
 Qed.
+
+(** the lens pupil sum is executed on [QOr] (fractions reduced after every operation: the plain [QO] sum of
+    9-16 products multiplies denominators) *)
+Lemma Q2R_Qred (x : Q) : Q2R (Qred x) = Q2R x.
+Proof. apply Qeq_eqR. apply Qred_correct. Qed.
+Definition nQ2R (nd : node Q) : node R := let '(P, (cg, sg), Sm) := nd in (cQ2R P, (Q2R cg, Q2R sg), sQ2R Sm).
+Ltac redqr :=
+  unfold lens_assemble, lens_integral, lens_term, lr_to_xyz, cneg, csub, c0, cmul, cadd, cscale, cvQ2R, cQ2R, sQ2R, nQ2R;
+  cbn [fst snd add mul sub opp inv zero one ofZ RO QOr].
+Ltac q2rr := repeat (rewrite ?Q2R_Qred, ?Q2R_plus, ?Q2R_minus, ?Q2R_mult, ?Q2R_opp, ?Q2R_0).
+
+Lemma lens_term_Qr_R (nd : node Q) :
+  (cQ2R (fst (lens_term QOr nd)), cQ2R (snd (lens_term QOr nd))) = lens_term RO (nQ2R nd).
+Proof.
+  destruct nd as [[[p1 p2] [cg sg]] [[[[a1 b1] [a2 b2]] [a3 b3]] [a4 b4]]].
+  redqr. q2rr. reflexivity.
+Qed.
+Lemma csum_Qr_R (l : list (cplx Q)) : cQ2R (csum QOr l) = csum RO (map cQ2R l).
+Proof.
+  induction l as [|[a b] l IH]; cbn [csum fold_right map].
+  - unfold cQ2R, c0. cbn. rewrite Q2R_0. reflexivity.
+  - unfold csum in IH. rewrite <- IH. destruct (fold_right (cadd QOr) (c0 QOr) l) as [x y].
+    unfold cQ2R, cadd. cbn [fst snd add QOr RO]. q2rr. reflexivity.
+Qed.
+Lemma lens_assemble_Qr_R (nodes : list (node Q)) (cg sg : Q) (K : cplx Q) :
+  cvQ2R (lens_assemble QOr nodes cg sg K) = lens_assemble RO (map nQ2R nodes) (Q2R cg) (Q2R sg) (cQ2R K).
+Proof.
+  assert (Hl : cQ2R (csum QOr (map (fun nd => fst (lens_term QOr nd)) nodes)) =
+               csum RO (map (fun nd => fst (lens_term RO nd)) (map nQ2R nodes))).
+  { rewrite csum_Qr_R, !map_map. f_equal. apply map_ext. intros nd. rewrite <- (lens_term_Qr_R nd). reflexivity. }
+  assert (Hr : cQ2R (csum QOr (map (fun nd => snd (lens_term QOr nd)) nodes)) =
+               csum RO (map (fun nd => snd (lens_term RO nd)) (map nQ2R nodes))).
+  { rewrite csum_Qr_R, !map_map. f_equal. apply map_ext. intros nd. rewrite <- (lens_term_Qr_R nd). reflexivity. }
+  unfold lens_assemble, lens_integral. rewrite <- Hl, <- Hr.
+  destruct (csum QOr (map (fun nd => fst (lens_term QOr nd)) nodes)) as [l1 l2].
+  destruct (csum QOr (map (fun nd => snd (lens_term QOr nd)) nodes)) as [r1 r2].
+  destruct K as [k1 k2].
+  unfold lr_to_xyz, csub, cadd, cmul, cscale, c0, cvQ2R, cQ2R. cbn [fst snd add mul sub opp inv zero one QOr RO].
+  q2rr. reflexivity.
+Qed.
